@@ -295,7 +295,8 @@ impl World {
                     else if let Some(a) = self.tokens.get(&target) { a.clone() } else { Addr::unchecked(target) };
                 let funds = st.get("funds").map(Self::funds_of).unwrap_or_default();
                 let msg: Value = self.subst(&st["msg"]);
-                self.app.execute_contract(sender, addr, &msg, &funds).map_err(|e| format!("{:#}", e))?;
+                let raw = cosmwasm_std::Binary::from(serde_json::to_vec(&msg).unwrap());
+                self.app.execute(sender, cosmwasm_std::CosmosMsg::Wasm(cosmwasm_std::WasmMsg::Execute { contract_addr: addr.to_string(), msg: raw, funds })).map_err(|e| format!("{:#}", e))?;
                 Ok(json!({}))
             }
             _ => Err(format!("unknown op {}", op)),
@@ -311,7 +312,7 @@ impl World {
                 if let Some(i) = x.strip_prefix("$pair") { return json!(self.pairs[i.parse::<usize>().unwrap()].contract_addr); }
                 if let Some(i) = x.strip_prefix("$lp") { return json!(self.pairs[i.parse::<usize>().unwrap()].liquidity_token); }
                 if let Some(t) = x.strip_prefix("$tok:") { return json!(self.tokens.get(t).map(|a| a.to_string()).unwrap_or(t.to_string())); }
-                if let Some(b) = x.strip_prefix("$b64:") { let inner: Value = serde_json::from_str(b).unwrap(); return json!(to_binary(&self.subst(&inner)).unwrap()); }
+                if let Some(b) = x.strip_prefix("$b64:") { let inner: Value = serde_json::from_str(b).unwrap(); return json!(cosmwasm_std::Binary::from(serde_json::to_vec(&self.subst(&inner)).unwrap())); }
                 v.clone()
             }
             Value::Array(a) => Value::Array(a.iter().map(|x| self.subst(x)).collect()),
